@@ -87,6 +87,11 @@ type obligation struct {
 	inputs  []inputVar
 }
 
+type firstIterPref struct {
+	term  string
+	nDecl int
+}
+
 type inputVar struct {
 	name string // Go-level name (parameter path)
 	term string
@@ -122,6 +127,9 @@ type vc struct {
 	tablesDone map[*ssa.Global]bool
 	nonNil    map[string]bool
 	nTable    int
+	entryMeasure []string // function-level termination measure evaluated at entry
+	pendingSelf *Val
+	firstIter []firstIterPref
 	reach     []*obligation // soft reachability canaries (one per block of the top-level function)
 }
 
@@ -184,9 +192,10 @@ func (x *vc) typeInv(term string, t types.Type, st *state) string {
 	}
 	switch x.srt.sortOf(t) {
 	case sStr:
-		return and(app("<=", "0", app("slen", term)), app("<=", app("slen", term), "9223372036854775807"), app("<=", "0", app("soff", term)))
+		// machine assumption: no string or slice is longer than 2^61 bytes / elements
+		return and(app("<=", "0", app("slen", term)), app("<=", app("slen", term), "2305843009213693952"), app("<=", "0", app("soff", term)))
 	case sSlice:
-		return and(app("<=", "0", app("sl_len", term)), app("<=", app("sl_len", term), app("sl_cap", term)), app("<=", app("sl_cap", term), "9223372036854775807"), app("<=", "0", app("sl_off", term)),
+		return and(app("<=", "0", app("sl_len", term)), app("<=", app("sl_len", term), app("sl_cap", term)), app("<=", app("sl_cap", term), "2305843009213693952"), app("<=", "0", app("sl_off", term)),
 			app("<=", "0", app("sl_arr", term)), implies(eq(app("sl_arr", term), "0"), and(eq(app("sl_len", term), "0"), eq(app("sl_cap", term), "0"))),
 			x.refBound(app("sl_arr", term), st))
 	case sIface:
@@ -634,6 +643,14 @@ func (x *vc) execBody(fr *frame, st0 *state) execResult {
 	fn := fr.fn
 	fr.entry = st0.clone()
 	fr.loops = findLoops(fn)
+	// source-level names of SSA values (debug info), for use in loop invariants and postconditions
+	for _, b := range fn.Blocks {
+		for _, instr := range b.Instrs {
+			if dr, ok := instr.(*ssa.DebugRef); ok && dr.Object() != nil {
+				fr.named[dr.Object().Name()] = append(fr.named[dr.Object().Name()], namedDef{v: dr.X, blk: dr.Block(), addr: dr.IsAddr})
+			}
+		}
+	}
 	loopOf := map[*ssa.BasicBlock]*loopInfo{}
 	for _, l := range fr.loops {
 		loopOf[l.header] = l
@@ -839,6 +856,10 @@ func (x *vc) loopHeader(fr *frame, st *state, li *loopInfo) {
 		}
 		fr.vals[phi] = nv
 		li.phiVals[phi] = nv
+		if old.T != "" && nv.T != "" {
+			// preference used when a counterexample is extracted: the failure happens in the first iteration
+			x.firstIter = append(x.firstIter, firstIterPref{eq(nv.T, old.T), len(x.decls)})
+		}
 	}
 	// 3. assume invariants
 	env2 := x.contractEnv(fr, st, li.header)
@@ -1160,6 +1181,9 @@ func (x *vc) modsOfBlock(fr *frame, st *state, b *ssa.BasicBlock, li *loopInfo, 
 						mod.add(name, rv.Iter.cell)
 						continue
 					}
+					if li != nil && rng.Parent() == fr.fn && rng.Block() != nil && li.body[rng.Block().Index] {
+						continue // an iterator created inside the scanned region is a fresh cell each time
+					}
 				}
 				mod.add(name, "*")
 			}
@@ -1204,11 +1228,24 @@ func (x *vc) modsOfCall(fr *frame, st *state, in ssa.CallInstruction, li *loopIn
 			}
 			return
 		} else {
-			if ft := x.functypeContract(cc.Value.Type()); ft != nil && ft.assigns != nil && len(ft.assigns) == 0 {
+			// a field declared to always hold a given function
+			if ld, ok := cc.Value.(*ssa.UnOp); ok && callee == nil {
+				if fad, ok := ld.X.(*ssa.FieldAddr); ok {
+					if key, ok := x.p.cons.funcFields[fieldKey(fad.X.Type(), fad.Field)]; ok && x.p.funcs[key] != nil {
+						callee = x.p.funcs[key]
+					}
+				}
+			}
+			if callee == nil {
+				if ft := x.functypeContract(cc.Value.Type()); ft != nil && ft.assigns != nil {
+					for _, a := range ft.assigns {
+						x.modsOfAssignsClause(fr, st, nil, cc, a, li, mod)
+					}
+					return
+				}
+				mod.all = true
 				return
 			}
-			mod.all = true
-			return
 		}
 	}
 	if fc := x.p.cons.get(fnKey(callee)); fc != nil && !fc.inline {
@@ -1273,7 +1310,35 @@ func (x *vc) modsOfAssignsClause(fr *frame, st *state, callee *ssa.Function, cc 
 	for root.op == "sel" && root.args[0].op == "sel" {
 		root = root.args[0]
 	}
-	if root.op == "sel" && root.args[0].op == "id" {
+	if root.op == "sel" && root.args[0].op == "id" && callee == nil {
+		// functype / iface contract: parameters are named positionally (arg0, arg1, ...)
+		pname := root.args[0].name
+		for i, av := range cc.Args {
+			if pname != fmt.Sprintf("arg%d", i) {
+				continue
+			}
+			pt, ok := av.Type().Underlying().(*types.Pointer)
+			if !ok {
+				break
+			}
+			s, ok := pt.Elem().Underlying().(*types.Struct)
+			if !ok {
+				break
+			}
+			for k := 0; k < s.NumFields(); k++ {
+				if s.Field(k).Name() == root.name {
+					name, _, _ := x.fieldArr(st, pt.Elem(), k)
+					if rv, ok := x.addrRootOutside(fr, av, li); ok && rv.LV == nil && rv.T != "" {
+						mod.add(name, rv.T)
+					} else {
+						mod.add(name, "*")
+					}
+					return
+				}
+			}
+		}
+	}
+	if root.op == "sel" && root.args[0].op == "id" && callee != nil {
 		pname := root.args[0].name
 		for i, p := range callee.Params {
 			if p.Name() == pname {
@@ -1310,7 +1375,11 @@ func (x *vc) modsOfAssignsClause(fr *frame, st *state, callee *ssa.Function, cc 
 			}
 		}
 	}
-	x.note("assigns clause %q of %s not understood: havoc all", a.text, fnKey(callee))
+	who := "function-type contract"
+	if callee != nil {
+		who = fnKey(callee)
+	}
+	x.note("assigns clause %q of %s not understood: havoc all", a.text, who)
 	mod.all = true
 }
 
